@@ -34,6 +34,9 @@ def run(ctx):
     # the names given by the caller must reach the server as the same names: the argument encoding of C08 (W2 escaping, W3/W6 literals)
     from .c08 import wire_rules
     wire_rules(ctx, R, verbs=False)
+    # "when the server lacks RENAMESCRIPT" is read from the capability table, which must be this connection's (A8 of C10)
+    from .c10 import a8
+    a8(ctx, R)
 
 
 def rename_rules(ctx, R, only=None):
